@@ -126,9 +126,14 @@ class ModulusPack:
         if len(bitsizes) == 0:
             raise SSHException("no moduli available")
         good = -1
-        # find nearest bitsize >= preferred
+        # find nearest bitsize >= preferred (within the requested range)
         for b in bitsizes:
-            if (b >= prefer) and (b <= max) and (b < good or good == -1):
+            if (
+                (b >= prefer)
+                and (b >= min)
+                and (b <= max)
+                and (b < good or good == -1)
+            ):
                 good = b
         # if that failed, find greatest bitsize >= min
         if good == -1:
